@@ -190,9 +190,12 @@ class Spec:
                 sp.contracts.append(c)
             return c
 
-        def verified(key, **kw):
+        def verified(key, local=False, **kw):
             c = Contract(key, "verified", **kw)
-            sp.contracts.append(c)
+            if local:
+                sp.local_contracts.append(c)
+            else:
+                sp.contracts.append(c)
             return c
 
         def target(ref, **kw):
